@@ -203,6 +203,8 @@ type QHyp struct {
 	trigs [][]qtrig // per variable
 	body  func(js []*Term) *Term
 	cache map[string]*Term
+	desc  string
+	pc    *Term // path condition under which the hypothesis was assumed
 }
 
 type Obligation struct {
@@ -227,6 +229,7 @@ type Obligation struct {
 	Known     *KnownFinding
 	SmallFile string
 	FullFile  string
+	AbstractFile string
 	fullNames []string
 	valNames  []string
 	bv        bool
@@ -610,6 +613,10 @@ func (e *Exec) scalarOf(v Value) *Term {
 		return x.ID
 	case FuncV:
 		return x.ID
+	case UntypedInt:
+		return Const(x.V, I64)
+	case UntypedIte:
+		return e.typedUntyped(x, I64)
 	}
 	e.errorf("scalarOf %T", v)
 	return nil
